@@ -354,6 +354,36 @@ theorem C02_scanner_shape_partial (code : List Char) (ts : List Token) (e : Expr
     have := shape_tilde_root e hroot hst pre rest tl hf hpre hrest
     simp [scannerShape, this]
 
+/-- a concrete text on which the full statement fails -/
+def shapeRefuted (s : String) : Bool :=
+  match Scanner.scan s.toList true with
+  | .ok ts =>
+    (match Parser.parse Generated.parserTable ts with
+     | .ok e => Lang e && !scannerShape e
+     | .error _ => false)
+  | .error _ => false
+
+/-- **The guard `tildeAtRoot` cannot be dropped** — the full statement is false.  In
+`f(a[(y ~ x)]) + b` the only `~` sits inside the level of `a[...]` inside a call argument; the
+scanner puts its `1 +` right after it, the lazy-call resolver ignores the level of a subscripted
+name altogether, so the formula is accepted, names its call term `f(a)` and has NO intercept.
+Replayed on the real library: `model_description("f(a[(y ~ x)]) + b")` has the terms `f(a)`, `b`
+and no `Intercept` (DESIGN 10.3, C02). -/
+theorem C02_scanner_shape_counterexample : ¬ C02_scanner_shape_Statement := by
+  intro hS
+  have h : shapeRefuted "f(a[(y ~ x)]) + b" = true := by decide +kernel
+  unfold shapeRefuted at h
+  split at h
+  · rename_i ts hs
+    split at h
+    · rename_i e hp
+      simp only [Bool.and_eq_true, Bool.not_eq_true'] at h
+      have := hS _ ts e hs hp h.1
+      rw [this] at h
+      cases h.2
+    · cases h
+  · cases h
+
 /-- premises satisfiable on non-trivial formulas of both kinds -/
 def shapeHyps (s : String) : Bool :=
   match Scanner.scan s.toList true with
